@@ -23,7 +23,7 @@ SELECT = {
     "C12": ("C12-", "W4-", "W5-", "R5:", "pre:owns-output-state", "R1[out]", "disconnected-before-the-lock-is-released", "lock:", "W1-", "coverage:", "pre:numbytes", "pre:nonneg"),
     "C13": ("C13-", "__init__@IO/raises", "__init__@IO/coverage", "R4:", "pre:worker-never-closes", "no-teardown", "connected-only-cleared", "coverage:", "_flush_some@W/raises", "_flush_some@IOL/raises", "handle_write@IO/raises", "write_soon@W/raises", "handle_close@IO/",
             "dispatcher.send@", "dispatcher.recv@", "handle_read@IO/"),
-    "C19": ("C19-", "pre:partial-expecting-request", "pre:holds-requests-lock", "coverage:", "R1[req]:sent_continue", "R1[req]:request-"),
+    "C19": ("C19-", "pre:partial-expecting-request", "pre:holds-requests-lock", "coverage:", "pre:owns-output-state", "R1[req]:sent_continue", "R1[req]:request-"),
 }
 FUNCS = {
     "C04": None, "C05": None, "C11": None, "C12": None, "C13": None, "C19": None,
@@ -89,6 +89,10 @@ def main_for(prop, argv=None, level="other"):
         rest = taskworld.run(ck, ["task.Task.build_response_header", "task.WSGITask.execute"])
         # ... and a response that turns out not to be delimited (fewer bytes than announced) closes the connection
         world.report(ck, rest, select=lambda n: "C01-F7-parser-close-decision-honoured" in n or "C03-short-body-closes" in n or "coverage:" in n)
+        # ... and the parser takes that decision for every ambiguous framing (Content-Length next to chunked, Transfer-Encoding off HTTP/1.1)
+        resp11 = world.run_functions(ck, ["adj", "buffers_abs", "receiver", "parser"], ["parser.HTTPRequestParser.parse_header"],
+                                     timeout=20 if ck.tier == "quick" else 60, hooks_mod="contracts.parser")
+        world.report(ck, resp11, select=lambda n: "C01-content-length-next-to-chunked-closes" in n or "C01-transfer-encoding-on-non-1.1-closes" in n or "coverage:" in n)
     if prop == "C19":
         # "never for HTTP/1.0": the flag the channel acts on is set by parse_header, only for a 1.1 request that asks for it
         resp = world.run_functions(ck, ["adj", "buffers_abs", "receiver", "parser"], ["parser.HTTPRequestParser.parse_header"],
